@@ -19,7 +19,7 @@ RULE = ('Noll indices 1..231 (quick) / 1..1326 (thorough) enumerated completely 
 ASSUMPTIONS = ['the sign of sine modes is not pinned by the property: +sin and -sin are both accepted (per mode)']
 PLAN = {'quick': {'gen': 8}, 'thorough': {'gen': 16, 'tests': 1, 'docs': 1}}
 REQUIRED_BUCKETS = ['index', 'value:normalized', 'value:unnormalized', 'gram:diag', 'gram:offdiag', 'coords:even', 'coords:odd',
-                    'coords:offcentre', 'support-only', 'coords:shared', 'basis', 'compose:normalized', 'compose:unnormalized', 'theta:undefined-for-m=0']
+                    'coords:offcentre', 'support-only', 'coords:shared', 'basis', 'compose:normalized', 'compose:unnormalized', 'theta:undefined-for-m=0', 'coords:narrow-float']
 REQUIRED_ANCHORS = ['probe:zernike_index', 'anchor:R', 'anchor:zernike', 'anchor:zernike_coordinates']
 REQUIRED_ORACLES = ['index=noll', 'index:bijective', 'mode=textbook', 'R(1)=1', 'gram=I', '|Z|<=1', 'rho=centroid-distance',
                     'origin=centroid', 'zero-outside', 'support-only']
@@ -124,8 +124,20 @@ def workload(ctx, lentil):
             theta_arg = theta.copy()
             theta_arg.flat[int(rng.integers(0, theta.size))] = [np.nan, np.inf, -np.inf][i % 3]
             ctx.bucket('theta:undefined-for-m=0')
+        if i % 5 == 3:
+            # coordinates held in a narrower float type: the same numbers, so the same mode
+            narrow = [np.float32, np.float16][(i // 5) % 2]
+            rho = rho.astype(narrow)
+            theta = theta.astype(narrow)
+            theta_arg = theta_arg.astype(narrow)
+            rho_arg = rho
+            rho, theta = rho.astype(float), theta.astype(float)
+            ctx.bucket('coords:narrow-float')
+            desc['coords'] = np.dtype(narrow).name
+        else:
+            rho_arg = rho
         try:
-            got = lentil.zernike(mask, j, normalize=normalize, rho=gen.layout(rng, rho), theta=gen.layout(rng, theta_arg))
+            got = lentil.zernike(mask, j, normalize=normalize, rho=gen.layout(rng, rho_arg), theta=gen.layout(rng, theta_arg))
         except Exception as e:
             ctx.check(False, 'mode=textbook', f'mode|raises={type(e).__name__}', str(e), desc)
             continue
